@@ -181,6 +181,28 @@ m('C02', 'last-keeps-state', 'detect', 'rxsci/operators/last.py', 'last initiali
    "                    observer.on_next(i)\n\n                elif type(i) is rs.OnErrorMux:"],
   ['C02'])
 
+# ---- one composite operator object applied at two places (the defect repaired by ef5dce6)
+m('C05', 'outer-observer-per-object', 'detect', 'rxsci/data/roll.py',
+  'the Subject feeding the demultiplexer is created once per roll() object (the repaired defect)',
+  "    def _roll_op(source):\n        # one outer observer per application of the operator\n        _roll, outer_obs = roll_mux(window, stride)\n",
+  "    _roll, outer_obs = roll_mux(window, stride)\n\n    def _roll_op(source):\n", ['C05', 'C08'])
+m('C06', 'outer-observer-per-object', 'detect', 'rxsci/data/split.py',
+  'the Subject feeding the demultiplexer is created once per split() object (the repaired defect)',
+  "    def _split_op(source):\n        # one outer observer per application of the operator\n        _split, outer_obs = split_mux(predicate)\n",
+  "    _split, outer_obs = split_mux(predicate)\n\n    def _split_op(source):\n", ['C06'])
+m('C04', 'outer-observer-per-object', 'detect', 'rxsci/operators/group_by.py',
+  'the Subject feeding the demultiplexer is created once per group_by() object (the repaired defect)',
+  "    def _group_by_op(source):\n        # one outer observer per application of the operator\n        _group_by, outer_obs = group_by_mux(key_mapper)\n",
+  "    _group_by, outer_obs = group_by_mux(key_mapper)\n\n    def _group_by_op(source):\n", ['C04', 'C03'])
+m('C05', 'copy-pipeline-list', 'benign', 'rxsci/data/roll.py',
+  'the pipeline list is copied before it is piped',
+  "    pipeline = rx.pipe(*pipeline) if type(pipeline) is list else pipeline\n\n    def _roll_op(source):",
+  "    pipeline = rx.pipe(*list(pipeline)) if type(pipeline) is list else pipeline\n\n    def _roll_op(source):", ['C05', 'C03'])
+m('C08', 'zip-is-not-none', 'detect', 'rxsci/operators/tee_map.py',
+  'zip decides that a branch has produced from the value (None items) instead of the flag',
+  "                    _next = has_next[base_index:base_index+n]\n                    if all(_next):",
+  "                    _next = [v is not None for v in queue[base_index:base_index+n]]\n                    if all(_next):")
+
 
 def main():
     for (prop, name, expect, file, what, old, new, checks) in M:
